@@ -366,9 +366,23 @@ func CheckC01(run *ev.Run) {
 		for _, f := range sp.Feats {
 			feat[f]++
 		}
-		curKey = func(k string) string { return "shape:" + k }
-		build("c01s", sp.Doc, sp.Names, []string{"server", "client"}, mode, "shape stream")
-		build("c01c", sp.Doc, sp.Names, []string{"cli"}, mode, "shape stream (cli)")
+		shapeKey := func(tgt string) func(string) string {
+			return func(k string) string {
+				// build:<role>:<message>:<culprit> -> the message only (names are n<k>: not the cause)
+				if parts := strings.SplitN(k, ":", 3); len(parts) == 3 && parts[0] == "build" {
+					msg := parts[2]
+					if i := strings.LastIndex(msg, ":"); i >= 0 {
+						msg = msg[:i]
+					}
+					return "shape:" + tgt + ":build:" + msg
+				}
+				return "shape:" + tgt + ":" + k
+			}
+		}
+		curKey = shapeKey("server+client")
+		build("c01s", sp.Doc, nil, []string{"server", "client"}, mode, "shape stream")
+		curKey = shapeKey("cli")
+		build("c01c", sp.Doc, nil, []string{"cli"}, mode, "shape stream (cli)")
 		if len(run.Samples) < 2 {
 			run.Sample(map[string]interface{}{"mode": mode, "features": sp.Feats})
 		}
@@ -404,7 +418,7 @@ func CheckC01(run *ev.Run) {
 			// systematic classes are keyed by class, name collisions by the name itself; the phase is "generate" or "build:<role>"
 			phase := "generate"
 			if strings.HasPrefix(k, "build:") {
-				phase = strings.Join(strings.SplitN(k, ":", 3)[:2], ":")
+				phase = "build" // not the package: the order in which go build reports packages is not fixed
 			}
 			switch c := NameClass(p.name); c {
 			case "non-ascii", "digit-first", "punctuation":
